@@ -22,14 +22,16 @@ def setLastRewardClaimTime (t : Time) : M Unit := do
 
 /-! ## asset.go -/
 
+/-- an asset becomes initialised at the first end-of-block at or after its reward start time -/
+def initStep (now : Time) (a : Asset) : Asset :=
+  if a.isInit || !rewardsStarted a now then a else { a with isInit := true }
+
 /-- `InitializeAllianceAssets` -/
 def initializeAllianceAssets (assets : List Asset) : M (List Asset) := do
   let w ← getW
-  let step (a : Asset) : Asset :=
-    if a.isInit || !rewardsStarted a w.time then a else { a with isInit := true }
   forEachM (fun (a : Asset) =>
-    if a.isInit || !rewardsStarted a w.time then pure () else setAsset { a with isInit := true }) assets
-  pure (assets.map step)
+    if a.isInit || !rewardsStarted a w.time then pure () else setAsset (initStep w.time a)) assets
+  pure (assets.map (initStep w.time))
 
 /-- `SetRewardWeightChangeSnapshot` -/
 def setSnapshot (a : Asset) (val : AVal) : M Unit :=
@@ -48,6 +50,17 @@ def settleAllValidators (asset : Asset) (weightChanged : Bool) (vals : List (Val
     queueRebalance
   else pure ()
 
+/-- the record `UpdateAllianceAsset` writes: the STORED asset with only the whitelisted fields replaced
+    (take rate, weight, change rate/interval, decay clock, range). The decay clock restarts at `now` when decay is
+    switched on (rate or interval changes while the old schedule was inactive). -/
+def applyUpdate (asset newAsset : Asset) (now : Time) : Asset :=
+  let lastChange : Time :=
+    if (newAsset.changeRate ≠ asset.changeRate ∨ newAsset.changeIntv ≠ asset.changeIntv) ∧
+       (asset.changeRate = one ∨ asset.changeIntv = 0) then now else newAsset.lastChange
+  { asset with takeRate := newAsset.takeRate, weight := newAsset.weight,
+               changeRate := newAsset.changeRate, changeIntv := newAsset.changeIntv,
+               lastChange := lastChange, wmin := newAsset.wmin, wmax := newAsset.wmax }
+
 /-- `UpdateAllianceAsset` -/
 def updateAllianceAsset (newAsset : Asset) : M Unit := do
   let w ← getW
@@ -57,12 +70,7 @@ def updateAllianceAsset (newAsset : Asset) : M Unit := do
     guardE (newAsset.wmin > newAsset.weight ∨ newAsset.wmax < newAsset.weight) "weight_out_of_bound"
     settleAllValidators asset (decide (newAsset.weight ≠ asset.weight)) w.vals
     let w ← getW
-    let lastChange : Time :=
-      if (newAsset.changeRate ≠ asset.changeRate ∨ newAsset.changeIntv ≠ asset.changeIntv) ∧
-         (asset.changeRate = one ∨ asset.changeIntv = 0) then w.time else newAsset.lastChange
-    setAsset { asset with takeRate := newAsset.takeRate, weight := newAsset.weight,
-                          changeRate := newAsset.changeRate, changeIntv := newAsset.changeIntv,
-                          lastChange := lastChange, wmin := newAsset.wmin, wmax := newAsset.wmax }
+    setAsset (applyUpdate asset newAsset w.time)
 
 /-- an asset is charged the take rate iff it has stake, a positive rate and its rewards have started -/
 def takeRateChargeable (now : Time) (a : Asset) : Bool :=
